@@ -37,3 +37,37 @@ def run_points(module, points, jobs=None, timeout=90):
     with ThreadPoolExecutor(jobs or common.NCPU) as ex:
         for r in ex.map(one, pts):
             yield r
+
+
+def run_judged(module, points, judge, jobs=None, timeout=90, stats=None):
+    """run_points + judge, with confirmation: a point that the judge faults is run a second time with little
+    else going on (4 at a time), and only symptoms that recur are reported.  A configuration point is a
+    deterministic input, so a genuine violation recurs; what does not recur is a real-time artefact of
+    a loaded machine (these live points use wall-clock timeouts as failure guards).  Yields
+    (point, result, verdicts)."""
+    first = list(run_points(module, points, jobs=jobs, timeout=timeout))
+    suspects = {}
+    for pt, r in first:
+        v = judge(pt, r)
+        if v:
+            suspects[json.dumps(pt, sort_keys=True)] = v
+    second = {}
+    if suspects:
+        again = [pt for pt, _r in first if json.dumps(pt, sort_keys=True) in suspects]
+        for pt, r in run_points(module, again, jobs=min(4, jobs or 4), timeout=timeout):
+            second[json.dumps(pt, sort_keys=True)] = r
+    if stats is not None:
+        stats['points_rerun_for_confirmation'] = len(suspects)
+        stats['points_not_reproduced'] = 0
+    for pt, r in first:
+        k = json.dumps(pt, sort_keys=True)
+        if k not in suspects:
+            yield pt, r, []
+            continue
+        r2 = second[k]
+        syms1 = {sym for sym, _d in suspects[k]}
+        v2 = [(sym, d) for sym, d in judge(pt, r2) if sym in syms1]
+        if not v2 and stats is not None:
+            stats['points_not_reproduced'] += 1
+            stats.setdefault('not_reproduced_examples', []).append({'point': pt, 'first_run_symptoms': sorted(syms1)})
+        yield pt, r2, v2
